@@ -19,4 +19,9 @@ theorem vars40 : GenV40.pkg_vars =
     bytes the model works on — no cached or hidden state takes part in it), and only these methods have a pointer receiver
     (every other method works on a copy and cannot change the object) -/
 theorem obj40 : GenV40.obj_fields = ["u0:uint8", "u1:uint8", "u2:uint8", "u3:uint8", "u4:uint8", "u5:uint8", "u6:uint8", "u7:uint8", "u8:uint8"] ∧ GenV40.obj_ptr_methods = ["Score", "Set"] := by decide
+/-- what the pointer-receiver methods do with their receiver: only `Set` assigns through it; none takes an address inside the
+    object, hands the pointer on, or keeps an alias (v4.0 `Score` has a pointer receiver but only reads) -/
+theorem effects40 : GenV40.obj_ptr_effects = ["Score:reads-only", "Set:writes"] := by decide
+/-- `sync.Pool`s of the package: none -/
+theorem pool40 : GenV40.pool_new = [] ∧ GenV40.pool_uses = [] := by decide
 end StateTie
